@@ -299,20 +299,42 @@ def inline_new_temps(tree, modname):
                     if not (isinstance(st, ast.Assign) and len(st.targets) == 1 and isinstance(st.targets[0], ast.Name)):
                         continue
                     v = st.targets[0].id
-                    if v not in r and v not in params and v not in nested_use and len(stores.get(v, [])) == 1 and _constant_expr(st.value) \
-                            and all(getattr(u, "lineno", 0) >= st.lineno for u in loads.get(v, [])) and loads.get(v):
+                    # a view (x[a:b]) updated in place through its name: the augmented assignments are uses of the view, not re-bindings
+                    aug_targets = []
+                    if isinstance(st.value, ast.Subscript) and isinstance(st.value.slice, ast.Slice):
+                        aug_targets = [x.target for x in _own_nodes(fn) if isinstance(x, ast.AugAssign) and isinstance(x.target, ast.Name) and x.target.id == v]
+                    plain_stores = [x for x in stores.get(v, []) if not any(x is t_ for t_ in aug_targets)]
+                    all_uses = list(loads.get(v, [])) + aug_targets
+                    if v not in r and v not in params and v not in nested_use and len(plain_stores) == 1 and loads.get(v) \
+                            and all(getattr(u, "lineno", 0) > (st.end_lineno or st.lineno) for u in all_uses) \
+                            and (_constant_expr(st.value) or _stable_pure_expr(fn, blk, i, st, all_uses, stores)):
                         # a named constant (2 * np.pi, a literal): every use reads the same value
                         import copy as _copy
-                        for u in loads[v]:
+
+                        def _as(u_):
+                            new_ = _copy.deepcopy(st.value)
+                            if isinstance(u_.ctx, ast.Store) and hasattr(new_, "ctx"):
+                                new_.ctx = ast.Store()
+                            return new_
+                        for u in all_uses:
                             for holder in ast.walk(fn):
                                 for fld, val_ in ast.iter_fields(holder):
                                     if val_ is u:
-                                        setattr(holder, fld, _copy.deepcopy(st.value))
+                                        setattr(holder, fld, _as(u))
                                     elif isinstance(val_, list):
                                         for j_, item in enumerate(val_):
                                             if item is u:
-                                                val_[j_] = _copy.deepcopy(st.value)
+                                                val_[j_] = _as(u)
                         del blk[i]
+                        for x_ in ast.walk(fn):
+                            # x[a:b][:] = w  is  x[a:b] = w
+                            if isinstance(x_, ast.Assign):
+                                for k_, t_ in enumerate(x_.targets):
+                                    if (isinstance(t_, ast.Subscript) and isinstance(t_.slice, ast.Slice) and t_.slice.lower is None and t_.slice.upper is None
+                                            and t_.slice.step is None and isinstance(t_.value, ast.Subscript) and isinstance(t_.value.slice, ast.Slice)):
+                                        inner_ = t_.value
+                                        inner_.ctx = ast.Store()
+                                        x_.targets[k_] = inner_
                         applied.setdefault(q, []).append(v)
                         done = True
                         break
@@ -477,6 +499,57 @@ def restore_operand_order(tree, modname):
                 break
             applied[q] = applied.get(q, 0) + t.n
     return applied
+
+
+def _pure_expr(e):
+    """names, attributes, literals, arithmetic, subscripts / slices and len(): evaluating it twice gives the same value (or a
+    view of the same data) as long as the names in it are not re-bound"""
+    if isinstance(e, (ast.Name, ast.Constant)):
+        return True
+    if isinstance(e, ast.Attribute):
+        return _pure_expr(e.value)
+    if isinstance(e, ast.BinOp):
+        return _pure_expr(e.left) and _pure_expr(e.right)
+    if isinstance(e, ast.UnaryOp):
+        return _pure_expr(e.operand)
+    if isinstance(e, ast.Subscript):
+        return _pure_expr(e.value) and _pure_expr(e.slice)
+    if isinstance(e, ast.Slice):
+        return all(x is None or _pure_expr(x) for x in (e.lower, e.upper, e.step))
+    if isinstance(e, ast.Tuple):
+        return all(_pure_expr(x) for x in e.elts)
+    if isinstance(e, ast.Call) and isinstance(e.func, ast.Name) and e.func.id in ("len", "int", "float", "min", "max", "abs") and not e.keywords:
+        return all(_pure_expr(a) for a in e.args)
+    if isinstance(e, ast.Compare):
+        return _pure_expr(e.left) and all(_pure_expr(c) for c in e.comparators)
+    if isinstance(e, ast.BoolOp):
+        return all(_pure_expr(v) for v in e.values)
+    if isinstance(e, ast.IfExp):
+        return _pure_expr(e.test) and _pure_expr(e.body) and _pure_expr(e.orelse)
+    return False
+
+
+def _stable_pure_expr(fn, blk, i, st, uses, stores):
+    """the definition `v = <pure expression>` at blk[i] can be substituted at every use: all uses are in the statements that
+    follow it in its own block (at any depth), and no name the expression mentions is stored to in those statements"""
+    if not _pure_expr(st.value) or isinstance(st.value, (ast.Name, ast.Constant)):
+        return False
+    following = blk[i + 1:]
+    inside = {id(x) for s_ in following for x in ast.walk(s_)}
+    if not all(id(u) in inside for u in uses):
+        return False
+    names = {x.id for x in ast.walk(st.value) if isinstance(x, ast.Name)}
+    attrs = {ast.unparse(x) for x in ast.walk(st.value) if isinstance(x, ast.Attribute)}
+    for s_ in following:
+        for x in ast.walk(s_):
+            if isinstance(x, ast.Name) and isinstance(x.ctx, (ast.Store, ast.Del)) and x.id in names:
+                return False
+            if isinstance(x, ast.Attribute) and isinstance(x.ctx, (ast.Store, ast.Del)) and ast.unparse(x) in attrs:
+                return False
+            if isinstance(x, (ast.AugAssign,)) and isinstance(x.target, ast.Name) and x.target.id in names:
+                return False
+    # scalar operands only change by re-binding; containers named in the expression may be mutated, which both spellings see alike
+    return True
 
 
 def _constant_expr(e):
